@@ -343,14 +343,27 @@ impl Case for C15Case {
                     if w.snaps_alive() > 0 {
                         w.stats.bump("fault.live_snapshot_during_edit");
                     }
-                    let file: Vec<String> = lines.iter().map(|(n, t)| format!("{} {}", n, t)).collect();
+                    // the file may be unsorted, repeat a number (the later line wins), delete a line again
+                    // with a bare number, or contain a direct statement (then nothing is loaded at all)
+                    let file: Vec<String> = lines
+                        .iter()
+                        .map(|(n, t)| if t.is_empty() { n.to_string() } else if *n == u32::MAX { t.clone() } else { format!("{} {}", n, t) })
+                        .collect();
                     w.disk.insert("F".into(), file);
                     w.line("LOAD \"F\"", &LineIo::budget(200));
-                    model.clear();
-                    for (n, t) in lines {
-                        model.insert(*n, t.clone());
+                    if lines.iter().any(|(n, _)| *n == u32::MAX) {
+                        w.stats.bump("c15.load_refused");
+                    } else {
+                        model.clear();
+                        for (n, t) in lines {
+                            if t.is_empty() {
+                                model.remove(n);
+                            } else {
+                                model.insert(*n, t.clone());
+                            }
+                        }
+                        w.stats.bump("c15.load");
                     }
-                    w.stats.bump("c15.load");
                 }
                 Op::ProgList(r, intr_after) => {
                     // the range statement as line 3 of the stored program; lines 1-2 make sure it is reached
@@ -551,7 +564,23 @@ impl Property for C15 {
                             lines.push((n, rng.pick::<&str>(TEXTS).to_string()));
                         }
                     }
-                    lines.sort();
+                    if rng.pct(60) {
+                        lines.sort();
+                    } else {
+                        // unsorted, with a repeated number, a bare number or a direct statement
+                        if !lines.is_empty() && rng.pct(50) {
+                            let n = lines[0].0;
+                            lines.push((n, rng.pick::<&str>(TEXTS).to_string()));
+                        }
+                        if !lines.is_empty() && rng.pct(30) {
+                            let n = lines[rng.usize(lines.len())].0;
+                            lines.push((n, String::new()));
+                        }
+                        if rng.pct(15) {
+                            let at = rng.usize(lines.len() + 1);
+                            lines.insert(at, (u32::MAX, "PRINT 1".to_string()));
+                        }
+                    }
                     Op::Load(lines)
                 }
                 96 if rng.pct(60) => {
@@ -584,7 +613,7 @@ impl Property for C15 {
         }
     }
     fn rule(&self) -> &'static str {
-        "one evaluation = one history of 2-19 operations (numbered lines in 5 spellings, bare numbers, LIST and DELETE in the forms n / n- / -n / a-b / bare / inverted / operand above 65529, TAB completion lookups, NEW, LOAD of a small file from the SimDisk, a LIST statement stored in the program and run with Ctrl-C after the j-th listed line + a direct LIST + CONT, snapshots taken, re-read and dropped, Ctrl-C after the j-th listed line) over line numbers drawn with a small-universe bias {0,1,2,9,10,11,100,65528,65529}; the ordered-map model is compared with get_listing() after every operation; distinct = distinct API/event log fingerprint; non-trivial = at least one accepted numbered line and more than 2 operations"
+        "one evaluation = one history of 2-19 operations (numbered lines in 5 spellings, bare numbers, LIST and DELETE in the forms n / n- / -n / a-b / bare / inverted / operand above 65529, TAB completion lookups, NEW, LOAD of a small file from the SimDisk (sorted or not, with repeated numbers, bare numbers, or a direct statement that makes the whole load fail), a LIST statement stored in the program and run with Ctrl-C after the j-th listed line + a direct LIST + CONT, snapshots taken, re-read and dropped, Ctrl-C after the j-th listed line) over line numbers drawn with a small-universe bias {0,1,2,9,10,11,100,65528,65529}; the ordered-map model is compared with get_listing() after every operation; distinct = distinct API/event log fingerprint; non-trivial = at least one accepted numbered line and more than 2 operations"
     }
     fn assumptions(&self) -> Vec<&'static str> {
         vec![
